@@ -11,46 +11,52 @@ an advertised name that does not exist or an import that fails makes `decide` ev
 
 namespace Lena.C20
 
-/-- **The current tree resolves**: the executable check, evaluated by the kernel on the
-generated facts, one `decide` per conjunct (layout of the state encoding, then every entry
-point: each sub-package imported alone in a fresh interpreter, and all of them together). -/
-theorem current_tree_resolves : resolvesAll Gen.current = true := by
-  unfold resolvesAll
-  simp only [Gen.current, List.all_cons, List.all_nil, Bool.and_true, Bool.and_eq_true]
+/-- **The current tree resolves, in every environment**: the executable check, evaluated by the
+kernel on the generated facts — one `decide` per conjunct: for every environment of
+`Gen.current.envs` (every subset of the third-party modules that lena's import-time code imports,
+e.g. jinja2 present / jinja2 absent) the layout of the state encoding, then every entry point
+(each sub-package imported alone in a fresh interpreter, and all of them together). -/
+theorem current_tree_resolves : resolvesAllEnvs Gen.current = true := by
+  unfold resolvesAllEnvs resolvesAll
+  simp only [Gen.current, Facts.withEnv, List.all_cons, List.all_nil, Bool.and_true, Bool.and_eq_true]
   repeat' apply And.intro
   all_goals decide +kernel
 
-/-- **No code path of the current tree can fail by referring to an undefined name**: for every
-sub-package `lena.X` (and for the whole framework), `import lena.X; from lena.X import *`
-succeeds in a fresh interpreter, and afterwards every function, method and lambda of every
-imported module, called in any order any number of times, resolves every global name and every
-attribute of a lena module it loads. -/
-theorem current_tree_safe (e : ModId) (he : e ∈ Gen.current.entries) :
-    ∃ σ₀, importEntry Gen.current e = .ok σ₀ ∧ ∀ σ, Reach Gen.current σ₀ σ → Safe Gen.current σ :=
-  resolver_sound Gen.current current_tree_resolves e he
+/-- **No code path of the current tree can fail by referring to an undefined name, whichever
+optional third-party modules are missing**: for every environment `env`, for every sub-package
+`lena.X` (and for the whole framework), `import lena.X; from lena.X import *` succeeds in a fresh
+interpreter, and afterwards every function, method and lambda of every imported module, called in
+any order any number of times, resolves every global name and every attribute of a lena module
+it loads. -/
+theorem current_tree_safe (env : Nat) (henv : env ∈ Gen.current.envs) (e : ModId) (he : e ∈ Gen.current.entries) :
+    ∃ σ₀, importEntry (Gen.current.withEnv env) e = .ok (σ₀, none) ∧
+      ∀ σ, Reach (Gen.current.withEnv env) σ₀ σ → Safe (Gen.current.withEnv env) σ :=
+  resolver_sound_envs Gen.current current_tree_resolves env henv e he
 
-/-- **Every advertised name of the current tree exists**: for every entry point `e`, every
-package `p` it star-imports and every name `n` of `p.__all__`: `n` is an attribute of `p` and
-`from p import *` binds it. -/
-theorem all_exported (e : ModId) (he : e ∈ Gen.current.entries)
+/-- **Every advertised name of the current tree exists, whichever optional third-party modules
+are missing**: for every environment, every entry point `e`, every package `p` it star-imports
+and every name `n` of `p.__all__`: `n` is an attribute of `p` and `from p import *` binds it. -/
+theorem all_exported (env : Nat) (henv : env ∈ Gen.current.envs) (e : ModId) (he : e ∈ Gen.current.entries)
     (E : Module) (hE : Gen.current.modOf e = some E) (p : ModId) (hp : Ev.star p ∈ E.evs)
     (P : Module) (hP : Gen.current.modOf p = some P) (names : List Name) (hall : P.all = some names) :
-    ∃ σ₀, importEntry Gen.current e = .ok σ₀ ∧
-      ∀ n ∈ names, (σ₀.get Gen.current p n).isSome = true ∧ (σ₀.get Gen.current e n).isSome = true :=
-  exported_of_resolvesAll Gen.current current_tree_resolves e he E hE p hp P hP names hall
+    ∃ σ₀, importEntry (Gen.current.withEnv env) e = .ok (σ₀, none) ∧
+      ∀ n ∈ names, (σ₀.get (Gen.current.withEnv env) p n).isSome = true ∧
+        (σ₀.get (Gen.current.withEnv env) e n).isSome = true :=
+  exported_envs Gen.current current_tree_resolves env henv e he E hE p hp P hP names hall
 
 /-- the fixpoint iteration reached a closed set for every entry point of the current tree -/
 theorem current_closures_ok : closuresOk Gen.current = true := by decide +kernel
 
 /-- **What `import lena.X` loads, for the current tree**: every module in `sys.modules` after an
 entry point's import is in the static import closure of that entry. -/
-theorem current_loaded_within_closure (e : ModId) (he : e ∈ Gen.current.entries) (σ : State)
-    (hi : importEntry Gen.current e = .ok σ) (c : ModId) (hc : σ.statusOf c ≠ .absent) :
-    memSet (importClosure Gen.current e) c = true :=
-  loaded_within_closure Gen.current current_closures_ok e he σ hi c hc
+theorem current_loaded_within_closure (env : Nat) (e : ModId) (he : e ∈ Gen.current.entries) (σ : State)
+    (exc : Option Nat) (hi : importEntry (Gen.current.withEnv env) e = .ok (σ, exc)) (c : ModId)
+    (hc : σ.statusOf c ≠ .absent) : memSet (importClosure Gen.current e) c = true :=
+  loaded_within_closure (Gen.current.withEnv env) current_closures_ok e he σ exc hi c hc
 
-/-- non-vacuity: there are entry points, and they star-import packages that advertise names -/
+/-- non-vacuity: there are environments and entry points, and they star-import packages that advertise names -/
 example : Gen.current.entries ≠ [] := by decide
+example : Gen.current.envs ≠ [] := by decide
 example : (Gen.current.entries.any fun e =>
     match Gen.current.modOf e with
     | some E => E.evs.any fun ev =>
